@@ -198,6 +198,7 @@ type Exec struct {
 	rangeExcluded int
 	timerObjs     map[*Cell]*Timer
 	condObjs      map[*Cell]*condState
+	addrs         map[any]uint64
 	assertInherited int
 	pcSet         map[*Term]bool
 }
